@@ -47,7 +47,7 @@ def m_arc_clone(it, ctx, callee, args):
     return deref(args[0])
 
 
-@model(r"(smol_str::)?SmolStr::new")
+@model(r"(smol_str::)?SmolStr::(new|new_static|new_inline|from)|<(smol_str::)?SmolStr as From<&str>>::from")
 def m_smolstr_new(it, ctx, callee, args):
     return VecV(elems_of(args[0]), "smolstr")
 
